@@ -119,7 +119,13 @@ pub enum FsCommand {
 impl FsCommand {
     /// Obtains a lock to the file if lock == true.
     fn maybe_lock(path: &Path, lock: bool) -> io::Result<Option<FileLock>> {
-        if lock {
+        // A symbolic link itself cannot be opened nor locked. Opening it would lock its target,
+        // which is not modified by replacing the link, and which may be already gone if it was
+        // a member of the same group (then the link would be left behind dangling).
+        let is_symlink = fs::symlink_metadata(path.to_path_buf())
+            .map(|m| m.file_type().is_symlink())
+            .unwrap_or(false);
+        if lock && !is_symlink {
             match FileLock::new(path) {
                 Ok(lock) => Ok(Some(lock)),
                 Err(e) if e.kind() == ErrorKind::Unsupported => Ok(None),
